@@ -15,6 +15,7 @@ import MW.Model.Import
 import MW.Lemmas.RemoveMain
 import MW.Lemmas.RemoveHistory
 import MW.Lemmas.RemoveEx
+import MW.Lemmas.TxmgrCodecRec
 namespace MW.Props.C08
 open MW MW.Model.Ledger MW.Model.Remove MW.Lemmas.RemoveScan MW.Lemmas.RemoveStep MW.Lemmas.RemoveFrame
   MW.Lemmas.RemoveProgress
@@ -758,5 +759,18 @@ example : let s : Store := { credits := [(k1, ⟨500, false, false, .standard, 0
                                         (k1, ⟨1, false, false, .standard, 0, "A2", none⟩)] }
     AMap.get s.credits k1 = some ⟨500, false, false, .standard, 0, "A1", none⟩ ∧
     (removeStep 20000 ctx "W2" ["A2"] s).map (fun o => AMap.get o.s.credits k1) = some none := by decide
+-- ------------------------------------------------------------------ byte level (Round 4): id-prefix scans on real byte keys
+section Codec
+open MW.Model.TxmgrCodec MW.TxmgrCodec MW.Gen.Codec
+
+/-- RemoveUnspentByWalletId: deleteByPrefix([]byte(walletId)) hits exactly the unspent keys of that wallet -/
+theorem codec_scan_unspent_by_wallet (w : Bytes) (u : UnspentKeyB) (hw : w.length = 42) (hu : u.WF = true) :
+    w.isPrefixOf (canonicalUnspentKey u) = true ↔ u.wallet = w := scan_unspent_by_wallet w u hw hu
+/-- RemoveAddressByWalletId / fetchAddressesByWalletId -/
+theorem codec_scan_addresses_by_wallet (w : Bytes) (a : AddrKeyB) (hw : w.length = 42) (ha : a.WF = true) :
+    w.isPrefixOf (encode wKeyAddressRecord a.vals) = true ↔ a.wallet = w := scan_addresses_by_wallet w a hw ha
+example : (⟨List.replicate 42 0xff, List.replicate 32 0xff, 0⟩ : UnspentKeyB).WF = true ∧
+    (⟨List.replicate 42 0xff, 1, [0x6d, 0x73]⟩ : AddrKeyB).WF = true := by decide
+end Codec
 
 end MW.Props.C08
